@@ -40,8 +40,9 @@ def gen_case(rng, tier):
     paths1 = ref.model_paths(progs.alt_model(c["model"]))
     ops = []
     n = 1 if tree else rng.randint(2, 4 if tier == "quick" else 7)
-    for _ in range(n):
-        alt = has_alt and rng.random() < 0.5
+    for opi in range(n):
+        # most histories start in the base configuration; the static switch is turned on later
+        alt = has_alt and rng.random() < (0.2 if opi == 0 else 0.6)
         paths = paths1 if alt else paths0
         mode = rng.choice(["none", "all", "some", "some", "one", "subcall_missing", "none_arg"] + (["alt_only", "alt_only"] if alt else []))
         if mode == "subcall_missing":
